@@ -46,6 +46,26 @@ CHECKS = {
    "The model diff is computed from the two model trees by the statement's rule; diff output must equal it entry-for-entry in path order with and without unchanged entries, the diff of an unmodified tree must be empty, and the backup callback must classify every file of the new tree and report every removed file.",
    "Content edits that keep size and mtime are not generated; non-file kinds are exempt on the callback side.",
    "DESIGN.md 5 C18"),
+ "C03": ("fault_enumeration",
+   "crash-point enumeration inside a property-based scenario generator: every mutating storage operation of the backup's logged trace (and a torn variant per write) as a stop-the-world point, judged against the independent decoder, a reference stitcher and snapshot oracles (proptest + verif_hooks interceptor)",
+   "Scenarios (history prefix, new tree, options) are generated and shrunk by proptest; for each scenario the crash-point space is finite and is enumerated completely in the thorough tier (thinned to 80 points per scenario in quick). All five clauses of the statement are checked at every point.",
+   "Crash granularity is one transport operation plus the empty-file state of a killed write; partial writes, partial remove_dir_all and fsync ordering are not modelled.",
+   "DESIGN.md 5 C03"),
+ "C04": ("fault_enumeration",
+   "fault enumeration inside a property-based scenario generator: every operation of the backup's logged storage trace x 4 error kinds as a single injected failure, plus generated multi-fault plans; oracle = independent decoder + model content + restore comparison",
+   "For each generated scenario every single-fault plan over the logged trace is executed (thinned to 60 operations in quick) and generated multi-fault plans are added; the oracle decodes every band independently and compares every recorded file's reassembled bytes with the model.",
+   "An injected failure has no side effect; fault granularity is one transport operation.",
+   "DESIGN.md 5 C04"),
+ "C05": ("fault_enumeration",
+   "model-based history generation + enumeration of every crash point and every failing read/list of the delete's logged trace; oracle = independent reference scan (referenced vs present blocks) and exact restores of kept versions",
+   "Histories and the subset to delete are generated by proptest; the fault-free delete is judged against an independent referenced/present scan and directory diff, and for successful real deletes every crash point and every single read/list/metadata fault of the logged trace is replayed from a pristine copy, after which every remaining complete version must restore exactly.",
+   "remove_dir_all of a band is one atomic operation in the model; zero-length block files are not blocks.",
+   "DESIGN.md 5 C05"),
+ "C14": ("exploration",
+   "property-based metamorphic test (second backup of an unchanged tree writes nothing and records identical addresses), logged-trace invariant over generated histories, and crash-point enumeration for the resume clause",
+   "Three generated case kinds share one check: twice-backed-up trees with differing options, histories with every storage operation logged together with the pre-state of its path, and scenarios whose backup is interrupted at every crash point and then resumed.",
+   "Zero-length leftovers may be completed; crash granularity is one transport operation.",
+   "DESIGN.md 5 C14"),
 }
 
 NOT_BUILT_REASON = "check not built yet in this session (planned, see DESIGN.md section 5); not claimed until its command exists and is silent on the unchanged tree"
